@@ -444,6 +444,20 @@ impl<'a> View<'a> {
         self.actors[a].first_cause
     }
 
+    /// From this stamp on no client operation on actor `a` that overlaps stamp `z` - directly or through a
+    /// chain of overlapping operations (a weak call that still upgrades because another operation holds a
+    /// temporary strong handle) - is in flight any more; u64::MAX if one of them never ended.
+    pub fn quiet_after(&self, a: ActorId, z: u64) -> u64 {
+        let mut from = z;
+        loop {
+            let next = self.ops.iter().filter(|p| p.actor == Some(a) && p.begin < from && p.end_or_max() > from).map(|p| p.end_or_max()).max();
+            match next {
+                Some(n) if n > from => from = n,
+                _ => return from,
+            }
+        }
+    }
+
     /// nothing outside the actor itself could have ended it before this stamp (u64::MAX: nothing ever)
     pub fn external_cause(&self, a: ActorId) -> u64 {
         self.actors[a].first_external_cause
